@@ -391,6 +391,7 @@ func TestC20(t *testing.T) {
 	rng := r.Rng("handler")
 	verDist := map[string]int{}
 	unsignedDefect := 0
+	sameSessionLogins := 0
 	for round := 0; round < rounds; round++ {
 		for _, protocol := range pick {
 			for kind := keyNone; kind <= keyV2; kind++ {
@@ -406,7 +407,14 @@ func TestC20(t *testing.T) {
 				name := fmt.Sprintf("P%d_%s", rng.Intn(1000), strs[3+rng.Intn(2)][:1])
 				props := genProps(rng)
 				key := genKey(rng, kind)
-				for reqIdx := 0; reqIdx < 259; reqIdx++ {
+				// one player, many backend logins (join, switches, fallbacks): every second
+				// (protocol, key) class keeps ONE session for all its requests, in a shuffled
+				// order, so that what an earlier backend asked for cannot leak into a later
+				// answer; the others use a fresh player per request
+				var session *proxy.VerifC20Session
+				order := rng.Perm(259)
+				sameSession := rng.Intn(2) == 0
+				for _, reqIdx := range order {
 					var data []byte
 					requested := 1 // Velocity: default unless exactly one byte
 					switch {
@@ -431,7 +439,17 @@ func TestC20(t *testing.T) {
 					msgID := rng.Intn(1 << 20)
 					w := &witness{Path: "handler", Requested: requested, DataHex: hex.EncodeToString(data), Protocol: protocol, Key: keyName(kind), Secret: hex.EncodeToString(secret), Remote: remote.String()}
 					r.LogCase(w)
-					res := proxy.VerifC20BackendLogin(spec, []proto.Packet{&packet.LoginPluginMessage{ID: msgID, Channel: "velocity:player_info", Data: data}})
+					var res proxy.VerifC20Result
+					if sameSession {
+						if session == nil {
+							session = proxy.VerifC20NewSession(spec)
+						}
+						sameSessionLogins++
+						res = session.BackendLogin(proxy.NewServerInfo(fmt.Sprintf("b%d", reqIdx), netutil.NewAddr("10.0.0.1:25566", "tcp")),
+							[]proto.Packet{&packet.LoginPluginMessage{ID: msgID, Channel: "velocity:player_info", Data: data}})
+					} else {
+						res = proxy.VerifC20BackendLogin(spec, []proto.Packet{&packet.LoginPluginMessage{ID: msgID, Channel: "velocity:player_info", Data: data}})
+					}
 					r.Eval(1)
 					r.Distinct(fmt.Sprintf("A/%d/%d/%d/%d", round, protocol, kind, reqIdx))
 					want := refVersion(requested, protocol, kind)
@@ -467,6 +485,7 @@ func TestC20(t *testing.T) {
 		}
 	}
 	r.Set("handler_version_distribution_classes", len(verDist))
+	r.Set("handler_backend_logins_of_a_player_that_logged_in_before", sameSessionLogins)
 	r.Set("handler_requests_ge_128_answered_as_unsigned", unsignedDefect)
 
 	// ---- B: CreateForwardingData directly -----------------------------------------------------
